@@ -362,7 +362,8 @@ func (w *World) tubeFull(o *Op) View {
 	s := w.Sessions[o.Sid]
 	var ln net.Listener
 	dialled := make(chan bool, 1)
-	if o.Ty == common.PFTube {
+	pfData := o.Ty == common.PFTube && !s.Using // a grant session's PF tubes are closed by the server
+	if pfData {
 		// a forwarding target must be in place: do a control request first (not part of the op's view)
 		l, err := net.Listen("tcp", "127.0.0.1:0")
 		if err != nil {
@@ -399,7 +400,7 @@ func (w *World) tubeFull(o *Op) View {
 		panic(err)
 	}
 	defer func() { go t.Close() }()
-	if o.Ty == common.PFTube {
+	if pfData {
 		if <-dialled {
 			return View{Kind: "H", H: 4}
 		}
